@@ -8,6 +8,7 @@ COLS = {
     "post": {"title": "str", "rating": "int"},
     "author": {"name": "str", "age": "int"},
     "country": {"name": "str", "code": "int"},
+    "region": {"name": "str", "size": "int"},
     "comment": {"text": "str", "score": "int"},
     "tag": {"label": "str", "weight": "int"},
 }
@@ -16,7 +17,8 @@ TO_ONE = {
     "post": {"author": "author"},
     "author": {"country": "country"},
     "comment": {"post": "post", "author": "author"},
-    "country": {}, "tag": {},
+    "country": {"region": "region"},      # the only NOT NULL foreign key of the schema
+    "tag": {}, "region": {},
 }
 # entity -> collections (name -> target entity)
 TO_MANY = {
@@ -25,6 +27,7 @@ TO_MANY = {
     "country": {"authors": "author"},
     "tag": {"posts": "post"},
     "comment": {},
+    "region": {"countries": "country"},
 }
 STRS = ["x", "y", "zed", "o'k", "a%"]
 INTS = [0, 5]
@@ -38,9 +41,12 @@ def canonical_instance():
     """For every n in 0..3 and every pass/fail pattern of n children (child value 0 or 5) a
     post with exactly those comments and exactly those tags; authors with every pattern of
     posts; NULL foreign keys; shared m2m children."""
-    inst = {"country": [], "author": [], "tag": [], "post": [], "comment": [], "post_tags": []}
-    inst["country"] = [{"id": 1, "name": "x", "code": 0}, {"id": 2, "name": "y", "code": 5},
-                       {"id": 3, "name": "zed", "code": 5}]
+    inst = {"region": [], "country": [], "author": [], "tag": [], "post": [], "comment": [],
+            "post_tags": []}
+    inst["region"] = [{"id": 1, "name": "x", "size": 0}, {"id": 2, "name": "zed", "size": 5}]
+    inst["country"] = [{"id": 1, "name": "x", "code": 0, "region_id": 1},
+                       {"id": 2, "name": "y", "code": 5, "region_id": 2},
+                       {"id": 3, "name": "zed", "code": 5, "region_id": 1}]
     inst["tag"] = [{"id": 1, "label": "x", "weight": 0}, {"id": 2, "label": "y", "weight": 5},
                    {"id": 3, "label": "x", "weight": 5}, {"id": 4, "label": "zed", "weight": 0}]
     patterns = [[]]
@@ -81,10 +87,15 @@ def canonical_instance():
 
 
 def random_instance(rng):
-    inst = {"country": [], "author": [], "tag": [], "post": [], "comment": [], "post_tags": []}
+    inst = {"region": [], "country": [], "author": [], "tag": [], "post": [], "comment": [],
+            "post_tags": []}
     nc, na, nt, npost = rng.randint(1, 3), rng.randint(1, 5), rng.randint(0, 4), rng.randint(2, 9)
+    nr = rng.randint(1, 2)
+    for i in range(nr):
+        inst["region"].append({"id": i + 1, "name": rng.choice(STRS), "size": rng.choice(INTS)})
     for i in range(nc):
-        inst["country"].append({"id": i + 1, "name": rng.choice(STRS), "code": rng.choice(INTS)})
+        inst["country"].append({"id": i + 1, "name": rng.choice(STRS), "code": rng.choice(INTS),
+                                "region_id": rng.randint(1, nr)})
     for i in range(na):
         inst["author"].append({"id": i + 1, "name": rng.choice(STRS), "age": rng.choice(INTS),
                                "country_id": rng.choice([None] + list(range(1, nc + 1)))})
@@ -135,6 +146,8 @@ class Graph:
             return target, [c for c in inst["comment"] if c["author_id"] == row["id"]]
         if (entity, rel) == ("country", "authors"):
             return target, [a for a in inst["author"] if a["country_id"] == row["id"]]
+        if (entity, rel) == ("region", "countries"):
+            return target, [c for c in inst["country"] if c["region_id"] == row["id"]]
         raise KeyError((entity, rel))
 
 
